@@ -768,7 +768,7 @@ fn seqs(alpha: &[TOp], max_len: usize, first: &[TOp]) -> Vec<Vec<TOp>> {
 }
 
 fn family(set: &str) -> Vec<Program> {
-    let core = [TOp::CloneRef, TOp::Drop, TOp::TryIntoMut, TOp::IntoVec];
+    let core = [TOp::CloneRef, TOp::Drop, TOp::TryIntoMut, TOp::IntoMut, TOp::IntoVec];
     let full = [TOp::CloneRef, TOp::CloneOwn, TOp::Read, TOp::Slice, TOp::Drop, TOp::TryIntoMut, TOp::IntoMut, TOp::IntoVec];
     let mcore = [TOp::MWrite, TOp::MReserve, TOp::MTryReclaim, TOp::MGrow, TOp::MFreeze, TOp::Drop];
     let mut out = vec![];
